@@ -100,8 +100,35 @@ def build_session(rng, idx, abstract, on, force=None):
     return {'id': idx, 'cfg': plugin_cfg(on), 'steps': steps, 'meta': meta, 'abstract': abstract, 'on': on}
 
 
+def known_verdicts(sessions, results):
+    """Whether pgcat's SQL parser accepts a message depends on its text only: text -> verdict, learnt from every message
+    of this run on which the parser ran (qr_parse hook)."""
+    known = {}
+    for s, r in zip(sessions, results):
+        if r is None or not r.get('obs'):
+            continue
+        msgs = list(r.get('msgs', []))
+        mi = 0
+        in_tx = False
+        for st, meta, o in zip(s['steps'], s['meta'], r['obs']):
+            nmsg = 0
+            if not in_tx:
+                nmsg = 1 if st['kind'] == 'q' else sum(3 if p.get('run', True) else 1 for p in st['parts']) + 1
+            mine = msgs[mi:mi + nmsg]
+            mi += nmsg
+            if meta['m'] == 'msg' and not in_tx:
+                verdicts = [v for m in mine for v in m.get('parse', [])]
+                if verdicts:
+                    known[(meta['proto'], meta['sql'])] = all(verdicts)
+                    if len(meta['kinds']) == 1:
+                        known[('stmt', meta['sql'])] = all(verdicts)
+            in_tx = o.get('status') in ('T', 'E')
+    return known
+
+
 def build_trace(sessions, results):
     recs = []
+    known = known_verdicts(sessions, results)
     for s, r in zip(sessions, results):
         if r is None or not r.get('obs'):
             continue
@@ -124,6 +151,14 @@ def build_trace(sessions, results):
                 # inside a transaction pgcat parses again in the inner loop; verdicts are not attributed there,
                 # so the message counts as parsed when every statement is one of our parseable spellings
                 parsed = (bool(verdicts) and all(verdicts)) if not in_tx else True
+                if not in_tx and not verdicts:
+                    # the parser did not run on this message (a session override): acceptance is a property of the text
+                    if (meta['proto'], meta['sql']) in known:
+                        parsed = known[(meta['proto'], meta['sql'])]
+                    else:
+                        sep = '; ' if meta['proto'] == 'simple' else ' | '
+                        parts = meta['sql'].split(sep)
+                        parsed = all(known.get(('stmt', x), False) for x in parts)
                 errs = o.get('errors', [])
                 denied = any('permission for table' in e for e in errs)
                 rows = o.get('rows', [])
